@@ -89,6 +89,21 @@ func checkC03(c ArgvCase, st *evid.Stats) error {
 		st.Class("has:descent")
 	}
 	if m.Fail {
+		if len(m.Causes) == 1 && m.Causes[0] == "unknown" {
+			// Parse succeeded although the statements ask for an unknown-option error (C08's business). Conservation
+			// still applies to a successful Parse: a token that was not consumed as a known option, value or command
+			// name must be in remaining - compare with the consumption of the same command line in Pass mode.
+			ps := *c.Spec
+			ps.UnknownMode = UnkPass
+			ps.Root = stripUnknownOverrides(c.Spec.Root)
+			if mp := Model(&ps, c.Argv); mp.Unspecified == "" && !mp.Fail {
+				st.Class("succeeded-despite-unknown-option-in-fail-mode")
+				if !eqStrs(out.Remaining, mp.Remaining) {
+					return failf("Parse succeeded and returned remaining = %s, but the tokens not consumed as known options, values or command names are %s (an unknown option token was dropped silently) for %s", q(out.Remaining), q(mp.Remaining), describeCase(c.Spec, c.Argv))
+				}
+				return nil
+			}
+		}
 		st.Exclude("model expects an error (judged by other properties); only the model-free invariant was checked")
 		return nil
 	}
@@ -109,3 +124,13 @@ func init() { propC03.Register() }
 func TestC03_conserve(t *testing.T) { propC03.Run(t) }
 
 func FuzzC03_conserve(f *testing.F) { propC03.RunFuzz(f) }
+
+func stripUnknownOverrides(c CmdSpec) CmdSpec {
+	c.UnknownMode = 0
+	cmds := make([]CmdSpec, len(c.Cmds))
+	for i := range c.Cmds {
+		cmds[i] = stripUnknownOverrides(c.Cmds[i])
+	}
+	c.Cmds = cmds
+	return c
+}
